@@ -251,6 +251,67 @@ func TestC07(t *testing.T) {
 		}
 		synctest.Test(t, func(t *testing.T) { c07ResumePause(t, run, k, run.Rand(n+k)) })
 	}
+	for k := 0; k < run.N(6, 120); k++ {
+		desc := map[string]any{"idx": k, "kind": "held-then-stopped-twice"}
+		if !run.Mine(n+8000+k, desc) {
+			continue
+		}
+		synctest.Test(t, func(t *testing.T) { c07StopStop(t, run, k, run.Rand(n+8000+k), desc) })
+	}
+}
+
+// c07StopStop: requests held by a pause are answered by a stop with that stop's message; the
+// operator then stops the service again with another message (no resume in between): requests held
+// by a later pause, or arriving while stopped, get the message of the stop in force.
+func c07StopStop(t *testing.T, run *Run, idx int, rng *rand.Rand, desc any) {
+	w := NewWorld(t, WorldOpt{})
+	defer w.Close()
+	run.Eval()
+	const svc = "svc"
+	w.AddTarget("ss-t0:80", nil)
+	if c := w.Deploy(svc, []string{"ss-t0:80"}, DefSO, DefTO, 5*time.Second, time.Second); c.Err != "" {
+		run.Inconclusive("setup failed: %s", c.Err)
+		return
+	}
+	msgs := [][2]string{{"first notice", "second <b>notice</b> & more"}, {"", "now with a message"}, {"only the first has one", ""}}[idx%3]
+	fromPaused := idx%2 == 0
+	if fromPaused {
+		w.At(time.Second, func() { w.Pause(svc, time.Second, 100*time.Second) })
+	}
+	nheld := 1 + rng.IntN(5)
+	for k := 0; k < nheld; k++ {
+		w.GoReq(1500*time.Millisecond+time.Duration(k)*10*time.Millisecond+OffArrival, Req{ID: fmt.Sprintf("held%d", k), Host: "c07.example", Path: "/x"})
+	}
+	w.At(3*time.Second, func() { w.Stop(svc, time.Second, msgs[0]) })
+	w.GoReq(3500*time.Millisecond+OffArrival, Req{ID: "between0", Host: "c07.example", Path: "/x"})
+	w.At(4*time.Second, func() { w.Stop(svc, time.Second, msgs[1]) })
+	w.GoReq(4500*time.Millisecond+OffArrival, Req{ID: "after0", Host: "c07.example", Path: "/x"})
+	w.GoReq(4600*time.Millisecond+OffArrival, Req{ID: "after1", Method: "POST", Host: "c07.example", Path: "/up", Body: []byte("x")})
+	w.At(6*time.Second, func() { w.Resume(svc) })
+	w.GoReq(6500*time.Millisecond+OffArrival, Req{ID: "resumed0", Host: "c07.example", Path: "/x"})
+	w.Wait()
+	for _, r := range w.RespLog() {
+		want, msg := 503, msgs[0]
+		switch {
+		case strings.HasPrefix(r.ID, "held") && !fromPaused:
+			want = 200 // the service was running when they arrived
+		case strings.HasPrefix(r.ID, "after"):
+			msg = msgs[1]
+		case strings.HasPrefix(r.ID, "resumed"):
+			want = 200
+		}
+		if r.Status != want {
+			run.Violate(fmt.Sprintf("stopped-twice:%s:want-%d:got-%d", strings.TrimRight(r.ID, "0123456789"), want, r.Status), fmt.Sprintf("request %s (stop %q at 3s, stop %q at 4s, resume at 6s; held by a pause first: %v) got status %d, expected %d", r.ID, msgs[0], msgs[1], fromPaused, r.Status, want), desc, func() []string { return w.Trace(100) })
+			return
+		}
+		if want == 503 {
+			if bad := c08CheckBody(string(r.Body), msg, ""); bad != "" {
+				run.Violate("stopped-twice:message:"+strings.TrimRight(r.ID, "0123456789"), fmt.Sprintf("request %s (stop %q at 3s, stop %q at 4s; held by a pause first: %v) was answered 503, but not with the message of the stop in force (%q): %s", r.ID, msgs[0], msgs[1], fromPaused, msg, bad), desc, func() []string { return w.Trace(100) })
+				return
+			}
+		}
+	}
+	run.Class(fmt.Sprintf("stop-stop|paused-first=%v|msgs=%d|held=%d", fromPaused, idx%3, nheld))
 }
 
 // c07ResumePause: requests are held; the operator resumes and pauses again at once (the second
